@@ -783,6 +783,59 @@ def run_jobs(ctx, fails, jobs):
             ctx.broken_ties.append('harness: comparing a frame failed: %r %s' % (e, traceback.format_exc()[-400:]))
 
 
+def degenerate_part(ctx, fails, frames=None):
+    """probability 1 / 0 (scalar, and conditionally for every stratum) in TimeFixedGFormula.fit_stochastic equals fit('all') /
+    fit('none') of the SAME object configuration: every `standardize` target, with and without a weights column, saturated
+    and non-saturated outcome models.  No randomness is left at p in {0,1}, so the comparison is exact."""
+    from zepid.causal.gformula import TimeFixedGFormula
+    n = 3 if ctx.quick else 16
+    made = frames or []
+    if not frames:
+        for i in range(n):
+            otype = 'binary' if i % 3 != 2 else 'normal'
+            df, meta = datagen.cat_frame(ctx.rng, outcome=otype, cell=(2, 6))
+            df['W'] = [ctx.rng.choice([1, 1, 2, 3]) for _ in range(len(df))]
+            made.append({'data': df.to_dict('list'), 'meta': meta, 'model': ctx.rng.choice(['sat', 'sub']),
+                         'sub': ctx.rng.choice(meta['sub_models'])})
+    for fr in made:
+        df, meta = pd.DataFrame(fr['data']), fr['meta']
+        otype = meta['outcome']
+        rhs = meta['sat_AL'] if fr['model'] == 'sat' else ('A + ' + fr['sub'] if fr['sub'] != '1' else 'A')
+        l0 = 'L0'
+        lv = sorted(set(df[l0]))
+        payload = {'part': 'degenerate', 'frame': fr}
+        ctx.evaluations += 1
+        ctx.nontriv(['degenerate', df['Y'].tolist(), df['A'].tolist(), rhs])
+        for std in ('population', 'exposed', 'unexposed'):
+            for wcol in (None, 'W'):
+                ctx.count('degenerate:standardize=%s,weights=%s' % (std, bool(wcol)))
+                try:
+                    g = TimeFixedGFormula(df, 'A', 'Y', outcome_type=otype if otype != 'normal' else 'normal', standardize=std, weights=wcol)
+                    g.outcome_model(rhs, print_results=False)
+                    ref = {}
+                    for plan, pv in (('all', 1.0), ('none', 0.0)):
+                        g.fit(plan)
+                        ref[pv] = float(g.marginal_outcome)
+                    got = {}
+                    for pv in (1.0, 0.0):
+                        g.fit_stochastic(p=pv, samples=3, seed=11)
+                        got[('scalar', pv)] = float(g.marginal_outcome)
+                        conds = ["g['%s']==%r" % (l0, v) for v in lv]
+                        g.fit_stochastic(p=[pv] * len(conds), conditional=conds, samples=3, seed=12)
+                        got[('conditional', pv)] = float(g.marginal_outcome)
+                except Exception as e:   # noqa
+                    fails.append((len(df), 'TimeFixedGFormula.fit_stochastic.degenerate.raises',
+                                  'TimeFixedGFormula(standardize=%s, weights=%s): %s: %s' % (std, wcol, type(e).__name__, str(e)[:120]), payload))
+                    continue
+                ctx.programs += 1
+                for (how, pv), v in got.items():
+                    ctx.disagreements_checked += 1
+                    if not (abs(v - ref[pv]) <= 1e-9 * max(1.0, abs(ref[pv]))):
+                        fails.append((len(df), 'TimeFixedGFormula.fit_stochastic.degenerate.%s' % std,
+                                      "TimeFixedGFormula(standardize=%s, weights=%s, model %r): fit_stochastic with %s probability %g gives %r, "
+                                      "fit(%r) gives %r" % (std, wcol, rhs, how, pv, v, 'all' if pv == 1.0 else 'none', ref[pv]), payload))
+
+
 def run(ctx):
     fails = []
     jobs = []
@@ -797,6 +850,7 @@ def run(ctx):
     if bj:
         jobs.append(bj)
     run_jobs(ctx, fails, jobs)
+    degenerate_part(ctx, fails)
     report(ctx, fails)
 
 
@@ -813,5 +867,9 @@ def report(ctx, fails):
 
 def replay(ctx, payload):
     fails = []
+    if payload.get('part') == 'degenerate':
+        degenerate_part(ctx, fails, [payload['frame']])
+        report(ctx, fails)
+        return
     run_jobs(ctx, fails, [payload['job']])
     report(ctx, fails)
